@@ -1,5 +1,6 @@
 """C18 — analysis is total, deterministic and offset-correct on any bytes."""
-GEN = True             # go/extract/c18.go: FilterFacts (offset writes per component, map ranges, Analyze call sites)
+GEN = True             # go/extract/c18.go: FilterFacts (offset writes per component, map ranges, Analyze call sites, receiver writes);
+                       # c18s.go + trans_runes.go: BlugeGen.C18S, the in-repo stemmers / normalisers TRANSLATED to Lean
 STATELESS = True       # every line is its own case
 REQUIRED_BRANCHES = [
     # every modelled component must have been replayed on real stage inputs
@@ -7,7 +8,12 @@ REQUIRED_BRANCHES = [
     "tokx-unicode", "tokx-web", "tokx-reword", "tokx-renonspace", "tokx-excletter", "tokx-excws", "tokx-replayed",
     "flt-ngram", "flt-edge", "flt-shingle", "flt-trunc", "flt-length", "flt-unique", "flt-stop", "flt-kwmark",
     "flt-elision", "flt-apos", "flt-dict", "flt-camel", "flt-cjk", "flt-reverse",
-    "tf", "doc", "conc-same", "concp-same", "final-tokens", "final-empty", "mq-found", "malformed-input", "params-out-of-range",
+    "tf", "doc", "conc-same", "concp-same",
+    # every translated stemmer / normaliser / rune helper ran against the real function
+    "stem:de_normalize", "stem:de_light", "stem:ar_normalize", "stem:ar_stem", "stem:fa_normalize", "stem:ckb_normalize", "stem:ckb_stem",
+    "stem:hi_normalize", "stem:hi_stem", "stem:es_light", "stem:it_light", "stem:pt_light", "stem:fr_light", "stem:fr_min",
+    "util:DeleteRune", "util:InsertRune", "util:BuildTermFromRunes", "util:BuildTermOpt", "util:TruncateRunes", "util:RunesEndsWith",
+    "util-outside-domain", "final-tokens", "final-empty", "mq-found", "malformed-input", "params-out-of-range",
     # all 24 bundled analyzers
     "an:keyword", "an:simple", "an:standard", "an:web", "an:ar", "an:cjk", "an:ckb", "an:da", "an:de", "an:en", "an:es",
     "an:fa", "an:fi", "an:fr", "an:hi", "an:hu", "an:it", "an:nl", "an:no", "an:pt", "an:ro", "an:ru", "an:sv", "an:tr",
@@ -19,21 +25,35 @@ ASSUMPTIONS = [
     "(checked on every replayed line, including invalid, truncated, over-long and surrogate encodings)",
     "container/ring with n slots behaves as the list of the last n values written",
     "dependency code is exercised, not modelled: blevesearch/segment (unicode tokenizer), regexp (regexp/exception/web tokenizers, "
-    "char filters), snowballstem and go-porterstemmer, x/text/unicode/norm, and the in-repo stemmers/normalisers: their outputs are "
-    "checked for Valid / SliceEq / Ordered / determinism / no panic on every generated input, nothing is proved about them",
+    "char filters), snowballstem and go-porterstemmer, x/text/unicode/norm, the Indic normaliser (bitset/map code) and lower-casing: their "
+    "outputs are checked for Valid / SliceEq / Ordered / determinism / no panic on every generated input, nothing is proved about them",
+    "translated stemmers (BlugeGen.C18S): Go slices are rendered as VALUES; the translator enforces a syntactic no-alias discipline "
+    "(go/extract/trans_runes.go: no slice copied between two variables, mutating calls only as x = f(x) / return f(..), range bodies store "
+    "only at the key) with one reviewed waiver (BuildTermFromRunesOptimistic: rv := buf), and every translated definition is run against "
+    "the real function by the `stem`/`util` ops on each generated term (incl. malformed bytes, invalid runes, arguments outside the domain: "
+    "panic must coincide with crash); a Lean List shorter than 2^55 stands for a Go slice (len is a non-negative int)",
+    "translated stemmers: unicode.IsLetter / unicode.In(r, Cf) are an opaque parameter `uc` of fr.norm / fr.stem / ckb.normalize; the "
+    "no-crash theorems hold for EVERY table, the driver fills it with the values observed on the runes of each term",
     "a component with no assignment to Start/End/PositionIncr and no analysis.Token construction (extracted table) is term-only",
     "C07: a boolean AND of term queries finds a document containing all the terms (used by the match-query round trip)",
 ]
-TRUSTED = ["hand-written model Bluge.Analysis tied by the correspondence stream `analysis` (replay of every modelled stage on the real stage inputs) "
+TRUSTED = ["the Go->Lean translator go/extract/trans.go + trans_runes.go (restricted subset, refuses anything else), cross-checked on every run by the "
+           "`stem`/`util` correspondence ops; the hand transcription of unicode/utf8 in Bluge.Analysis / Bluge.C18.GoStd (RuneLen, EncodeRune, "
+           "DecodeRune, bytes.Runes, RuneCount, HasSuffix)",
+           "hand-written model Bluge.Analysis tied by the correspondence stream `analysis` (replay of every modelled stage on the real stage inputs) "
            "and by the extracted table BlugeGen.C18 (offset writers, map ranges, Analyze call sites)"]
 
 LEVEL_TEXT = ("Lean 4 theorems over all byte strings / token streams / parameter values about the model of the analysis pipeline and of every "
               "offset-writing component (character-class and single tokenizers, n-gram, edge n-gram, shingle, truncate, length, unique, stop, "
-              "camel case, dictionary compound, CJK bigram, reverse; TokenFrequency, Document.Analyze); …_partial, said plainly: no-panic and "
-              "term rewriting of the stemmers, normalisers and dependency tokenizers are exercised by the correspondence stream only")
+              "camel case, dictionary compound, CJK bigram, reverse; TokenFrequency, Document.Analyze); statelessness of every component "
+              "(extracted receiver-write table); NO-PANIC AND TERMINATION, for all inputs, of the 30 in-repo stemmer / normaliser / rune-helper "
+              "functions translated from source (de, ar, fa, ckb, hi, es, it, pt, fr light+minimal, analysis/util.go) and of the 14 token filters "
+              "built from them; …_partial, said plainly: WHICH stem they produce, and no-panic of the dependency stemmers (snowball, porter), of the "
+              "Indic normaliser and of the dependency tokenizers, are exercised by the correspondence stream only")
 LEVEL_NOTE = ("trusted: Lean kernel + propext/Classical.choice/Quot.sound; the hand-written model Bluge.Analysis, the extractor go/extract/c18.go "
               "and the harness go/harness/c18; Go's unicode tables enter as observed parameters")
-TECHNIQUE = ("Lean 4 proof (pipeline laws, loop invariants of the transcribed filters) + extracted fact table with decide obligations + "
+TECHNIQUE = ("Lean 4 proof (pipeline laws, loop invariants of the transcribed filters; weakest-precondition calculus with loop invariants over the "
+             "Go->Lean translation of the stemmers, bounds checks by bv_omega) + extracted fact table with decide obligations + "
              "differential replay of every modelled stage against the real analysis packages, with a Valid/SliceEq/determinism/match-query oracle "
              "on all bundled analyzers")
 
